@@ -1,10 +1,10 @@
 SPECIFICATION MCSpec
 CONSTANTS
   NameVals = {1, 2}
-  StrVals = {1, 2}
+  StrVals = {1}
   VsVals = {1, 2}
-  RecVals = {1, 2}
-  BulkSizes = {126, 127, 128, 129, 256, 300}
+  RecVals = {1}
+  BulkSizes = {127, 129, 300}
   MaxSolv = 2
   MaxUnion = 1
   MaxVs = 3
